@@ -139,7 +139,7 @@ fn main() {
             let seed: u64 = arg(&args, "--seed").map(|s| s.parse().unwrap()).unwrap_or(1);
             let runs: usize = arg(&args, "--runs").map(|s| s.parse().unwrap()).unwrap_or(4);
             let steps: usize = arg(&args, "--steps").map(|s| s.parse().unwrap()).unwrap_or(500);
-            let classes: u8 = arg(&args, "--classes").map(|s| s.parse().unwrap()).unwrap_or(12);
+            let classes: u16 = arg(&args, "--classes").map(|s| s.parse().unwrap()).unwrap_or(12);
             let caps: Vec<usize> = arg(&args, "--caps").unwrap_or("8,6,4").split(',').map(|x| x.parse().unwrap()).collect();
             let info = trace::record(arg(&args, "--trace").expect("--trace"), set_mode, seed, runs, steps, &caps, classes);
             let out = arg(&args, "--out").expect("--out");
